@@ -70,7 +70,8 @@ META = {
                     "hits a failing unification (conflicting kinds are an ill-kinded program; failures are printed "
                     "and ignored by design)"],
     "probes": ["pair_defined_both", "pair_undefined_both", "triple_checked", "delivery_conflict_free",
-               "delivery_conflicting", "program_level", "inference_failed_consistently", "universe_pairs_seen"],
+               "delivery_conflicting", "program_level", "inference_failed_consistently",
+               "statement_ids_repeat_across_phases", "phase_without_statements", "public_infer_kinds_entry"],
  },
 }
 
@@ -391,13 +392,23 @@ def run_c14(ctx):
                 from simdag.gen.kinds import adversarial
                 _p, values = sub_values(tape, lambda: adversarial(tape))
             base = {"type": "c14", "values": values, "source": source}
+            if tape.chance(0.3, "same_ids"):
+                base["same_ids"] = True
+                ctx.count("probe:statement_ids_repeat_across_phases")
+            if tape.chance(0.3, "empty_phase"):
+                base["empty_phase"] = tape.draw(4, "empty_at")
+                ctx.count("probe:phase_without_statements")
             n_perm = 2 + tape.draw(3, "nperm")
             perms = [None] + [1 + tape.draw(1 << 20, "perm_seed") for _ in range(n_perm)]
             hs = [0, 1 + tape.draw(63, "hashseed")]
             as_iter = [False] + [tape.chance(0.4, "as_iter") for _ in perms[1:]]
             if any(as_iter):
                 ctx.count("fault:phases_as_one_shot_iterables", sum(as_iter))
-            requests = [(h, [dict(base, perm_seed=p, as_iter=ai) for p, ai in zip(perms, as_iter)]) for h in hs]
+            via = [False] + [tape.chance(0.4, "via_infer_kinds") for _ in perms[1:]]
+            if any(v and not ai for v, ai in zip(via, as_iter)):
+                ctx.count("probe:public_infer_kinds_entry")
+            requests = [(h, [dict(base, perm_seed=p, as_iter=ai, via_infer_kinds=v)
+                             for p, ai, v in zip(perms, as_iter, via)]) for h in hs]
             answers = run_workers(requests)
             can = answers[0][0]
             ctx.count("probe:program_level")
